@@ -61,7 +61,12 @@ class Episode:
         Base = self.m["strapdown"].Integrator
         cap0 = self.cap0
         cls = type("Small", (Base,), {"INITIAL_SIZE": cap0}) if cap0 else Base
-        p = self.new_pva(self.times[0], vd_zero, allow_perm=False)   # the documented Pva label order for the constructor
+        p = self.new_pva(self.times[0], vd_zero, allow_perm=False)   # the documented Pva label order for the constructor ...
+        # ... in most episodes; in a quarter of the label-permuting ones the constructor's Pva carries its labels in another order (it is
+        # read by label; the trajectory then keeps that column order, and set_pva must still write the row by label: seeded change C02_9)
+        self.ctor_perm = bool(self.perm and self.rng.rand() < 0.25)
+        if self.ctor_perm:
+            p = p[list(self.rng.permutation(COLS))]
         self.bases[0] = p
         self.base_row[0] = 1
         self.obj = cls(p.copy(), self.alt)
@@ -163,9 +168,10 @@ class Episode:
         labels = [float(x) for x in tr.index]
         if labels != self.times[:len(rows)]:
             bad.append("time index is not start time followed by every increment time exactly once: %r" % labels[:8])
-        if list(tr.columns) != COLS:
+        if (sorted(tr.columns) != sorted(COLS)) if getattr(self, "ctor_perm", False) else (list(tr.columns) != COLS):
             bad.append("trajectory columns %r" % list(tr.columns))
-        vals = tr.values
+            return bad, drift
+        vals = tr[COLS].values
         for j, r in enumerate(rows):
             key, ov, ol = self.interp(r)
             if row_key(vals[j], labels[j]) != key:
@@ -187,20 +193,21 @@ class Episode:
             if not hasattr(result, "values") or len(result) != len(ret):
                 bad.append("integrate returned %s rows, expected previous last row + %d appended" % (getattr(result, "shape", None), len(ret) - 1))
             else:
+                rv = result[COLS].values
                 for j, r in enumerate(ret):
-                    if row_key(result.values[j], result.index[j]) != self.interp(r)[0]:
+                    if row_key(rv[j], result.index[j]) != self.interp(r)[0]:
                         bad.append("integrate: returned row %d differs from the trajectory row it stands for" % j)
                         break
         elif op[0] == "P":
             key, ov, ol = self.interp(ret[0])
-            if row_key(result.values, result.name) != key or list(result.index) != COLS:
+            if row_key(result[COLS].values, result.name) != key or sorted(result.index) != sorted(COLS):
                 bad.append("predict differs from the row the next integrate of that increment appends: max |d| = %.3g, label %r vs %r"
                            % (float(np.nanmax(np.abs(np.asarray(result.values, float) - ov))), result.name, ol))
             if not self.alt and (result['VD'] != 0.0 or np.float64(result['alt']).tobytes() != np.float64(self.bases[ret[0]["altOf"]]['alt']).tobytes()):
                 bad.append("2D: predict returned VD = %r alt = %r" % (result['VD'], result['alt']))
         elif op[0] == "G":
             pva, t = result
-            if row_key(pva.values, pva.name) != row_key(vals[-1], labels[-1]) or float(t) != labels[-1]:
+            if row_key(pva[COLS].values, pva.name) != row_key(vals[-1], labels[-1]) or float(t) != labels[-1]:
                 bad.append("get_pva/get_time differ from the last trajectory row")
         elif op[0] == "S" and result:
             bad.append(result)
@@ -305,12 +312,13 @@ def record_episode(m, task):
                    rows=[rid(vals[j], labels[j]) for j in range(n2)],
                    times=[tmap.get(t, -1) for t in labels],
                    vdz=[bool(vals[j][5] == 0.0) for j in range(n2)], alts=[aid(vals[j][2]) for j in range(n2)],
-                   pure=bool(ep.inc.values.tobytes() == ep.inc_snapshot.tobytes() and list(tr.columns) == COLS and not (isinstance(res, str) and res.startswith("set_pva modified"))),
+                   pure=bool(ep.inc.values.tobytes() == ep.inc_snapshot.tobytes() and (sorted(tr.columns) == sorted(COLS) if getattr(ep, "ctor_perm", False) else list(tr.columns) == COLS) and not (isinstance(res, str) and res.startswith("set_pva modified"))),
                    ret=[], retvdz=True, retalts=[])
         if call[0] == "I":
-            obs["ret"] = [rid(res.values[j], res.index[j]) for j in range(len(res))]
-            obs["retalts"] = [aid(res.values[j][2]) for j in range(len(res))]
-            obs["retvdz"] = bool((res.values[:, 5] == 0.0).all())
+            rv = res[COLS].values
+            obs["ret"] = [rid(rv[j], res.index[j]) for j in range(len(res))]
+            obs["retalts"] = [aid(rv[j][2]) for j in range(len(res))]
+            obs["retvdz"] = bool((rv[:, 5] == 0.0).all())
         elif call[0] == "P":
             obs["ret"] = [rid(res[COLS].values, res.name)]
             obs["retalts"] = [aid(res['alt'])]
